@@ -5,7 +5,9 @@
 //   FJSHIM_MARK_FD  writes to this descriptor number are workload markers, not file I/O (default 1000)
 //   FJSHIM_KILL_AT  k[:bytes]  at the k-th mutating call (1-based): for write() perform the first
 //                  `bytes` bytes (if given), then _exit(137) without performing the call itself
-//   FJSHIM_FAIL   n:class:what:mode   class = write|sync|create|any ; what = errno number | short:<k> ;
+//   FJSHIM_FAIL   n:class:what:mode   class = write|sync|create|any ; what = errno number | short:<k> | shortok:<k>
+//                  (short: the call writes k bytes, every later journal write fails with ENOSPC; shortok: the call writes k
+//                  bytes and nothing else happens: a legal short write that the caller must complete) ;
 //                  mode = once|sticky ; applies to the n-th matching call on paths ending in FJSHIM_FAIL_SUFFIX
 //                  (default ".jnl")
 //
@@ -55,6 +57,7 @@ static int fail_sticky = 0;
 static long fail_count = 0;
 static int fail_fired = 0;
 static int fail_after_short = 0;
+static int fail_benign = 0; // shortok: a short write that is not followed by an error
 static char fail_suffix[64] = ".jnl";
 
 static int (*real_open)(const char *, int, ...);
@@ -152,7 +155,10 @@ static void init(void) {
         char *p3 = strtok_r(NULL, ":", &save);
         char *p4 = strtok_r(NULL, ":", &save);
         char *p5 = NULL;
-        if (p3 && strcmp(p3, "short") == 0) { p5 = p4; p4 = strtok_r(NULL, ":", &save); }
+        if (p3 && (strcmp(p3, "short") == 0 || strcmp(p3, "shortok") == 0)) {
+            fail_benign = strcmp(p3, "shortok") == 0;
+            p5 = p4; p4 = strtok_r(NULL, ":", &save);
+        }
         if (p1 && p2 && p3) {
             fail_n = atol(p1);
             fail_class = !strcmp(p2, "write") ? 1 : !strcmp(p2, "sync") ? 2 : !strcmp(p2, "create") ? 3 : 4;
@@ -225,7 +231,8 @@ static int should_fail(int cls, const char *path, int *err, long *shortlen) {
     int hit = fail_sticky ? (fail_count >= fail_n) : (fail_count == fail_n);
     if (!hit) return 0;
     *err = fail_errno;
-    if (fail_short >= 0 && cls == 1 && !fail_fired) { *shortlen = fail_short; fail_after_short = 1; }
+    if (fail_short >= 0 && cls == 1 && !fail_fired) { *shortlen = fail_short; fail_after_short = !fail_benign; }
+    else if (fail_benign) return 0;
     fail_fired = 1;
     return 1;
 }
@@ -355,8 +362,10 @@ ssize_t write(int fd, const void *buf, size_t len) {
         _exit(137);
     }
     int err = 0; long sl;
-    if (should_fail(1, p, &err, &sl)) {
-        emit(K_FAULT, -err, (uint64_t)off, 1, p, NULL, NULL, 0);
+    int sf = should_fail(1, p, &err, &sl);
+    if (sf && fail_benign && !(sl > 0 && (size_t)sl < len)) sf = 0; // benign short write longer than this buffer: nothing happens
+    if (sf) {
+        emit(K_FAULT, fail_benign ? 0 : -err, (uint64_t)off, 1, p, NULL, NULL, 0);
         if (sl >= 0 && (size_t)sl < len && sl > 0) {
             ssize_t w = real_write(fd, buf, (size_t)sl);
             emit(K_WRITE, w, (uint64_t)off, 0, p, NULL, buf, w > 0 ? (uint32_t)w : 0);
